@@ -2768,7 +2768,10 @@ Lemma touch_preserves f f1 f' user det g :
   FInv f -> FInv f' -> DInv f1 g ->
   fc_w f1 = fc_w f -> fc_bal f1 = fc_bal f -> cur_week f1 = cur_week f -> fc_per_block f1 = fc_per_block f ->
   touch_summary f f1 f' user det ->
-  DInv f' (mkG (g_paid g ++ pay_entries det) (g_used g ++ used_entries (view_progress f user) det) (g_cred g)).
+  DInv f' (mkG (g_paid g ++ pay_entries det) (g_used g ++ used_entries (view_progress f user) det) (g_cred g)) /\
+  (* what the touch pays in a fungible token is covered by what the window still held *)
+  (forall t, t <> LOCKED ->
+     tok_sum (unlocked_part (flat_rewards det)) t <= wsum (pot f1 g t) (cur_week f - MAXW) window_len).
 Proof.
   intros Hi Hi' D Hw1 Hb1 Hc1 Hp1 Hts. unfold touch_summary in Hts.
   set (cw := cur_week f) in *. set (toks := h_tokens (fc_h f)) in *.
@@ -2911,7 +2914,33 @@ Proof.
     destruct (HEI' w ltac:(lia)) as [Hz|Hei]; [rewrite He in Hz; lia|]. rewrite He in Hei.
     assert (Ho : 0 <= owed f' w) by (unfold owed; apply psum_nonneg; intros; apply owed_at_nonneg).
     pose proof (HRt'nn w t). nia. }
-  constructor.
+  assert (Hpot : forall t w, cw - MAXW <= w < cw - MAXW + Z.of_nat window_len ->
+                  pot f' g' t w = pot f1 g t w + (- x w t)).
+  { intros t w Hwr. rewrite window_len_Z in Hwr. unfold pot. rewrite Hpaid', HRt1.
+    destruct (Xb w t) as (Hx0 & _).
+    destruct (Z.eq_dec w cw) as [->|Hne].
+    - destruct Hcwk as (_ & Ha). unfold gA. rewrite Ha, Hcwk2.
+      destruct (Hxy0 cw (Hfut cw ltac:(lia))) as (Hxz & _). rewrite Hxz. lia.
+    - assert (Hle : 0 < x w t -> paid g w t + x w t <= gR f' w t).
+      { intros Hx. destruct (HPR w t Hx) as (Hle & _). rewrite Hpaid' in Hle. exact Hle. }
+      unfold gA. pose proof (Dpaid0 w t) as Hp0.
+      destruct (Hweeks w Hne) as [(_ & Hr & Ha)|[(Hcl & _)|(_ & Hr0 & Hwin & Hr & Ha)]].
+      + rewrite Ha. unfold gR in *. rewrite Hr in *. destruct (Z.eq_dec (x w t) 0) as [Hz|Hz]; [rewrite Hz; lia|].
+        specialize (Hle ltac:(lia)). lia.
+      + unfold cleared_week in Hcl. lia.
+      + rewrite Ha. unfold gR in *. rewrite Hr, Hr0 in *. simpl.
+        rewrite (tok_sum_positive_part (fun t0 => view_accumulated f1 w t0) toks t Hnd (fun t0 => DA0 w t0)) in *.
+        assert (Hpz : paid g w t = 0) by (apply DP0; [lia | left; exact Hr0]). rewrite Hpz in *.
+        pose proof (DA0 w t). destruct (Z.eq_dec (x w t) 0) as [Hz|Hz].
+        * rewrite Hz. destruct (mem t toks); lia.
+        * specialize (Hle ltac:(lia)). destruct (mem t toks); lia. }
+  assert (Hxsum : forall t, wsum (fun w => x w t) (cw - MAXW) window_len = zsum (map (fun wr => tok_sum (snd wr) t) det)).
+  { intros t. apply (wsum_pay_entries det t (cw - MAXW) window_len HWnd).
+    intros w Hin. rewrite window_len_Z. destruct (HWin w Hin) as (Hwin & _). lia. }
+  assert (Hneg : forall t, wsum (fun w => - x w t) (cw - MAXW) window_len = - wsum (fun w => x w t) (cw - MAXW) window_len).
+  { intros t. clear. generalize (cw - MAXW). induction window_len as [|n IH]; intros a; [reflexivity|]. rewrite !wsum_S, IH. lia. }
+  split.
+  { constructor.
   - (* E >= 0 *)
     intros w. destruct (Z.eq_dec w cw) as [->|Hne]; [exact HE'cw|].
     unfold gE in *. destruct (Hweeks w Hne) as [(-> & _)|[(_ & -> & _)|(-> & _)]]; [apply DE0 | lia | apply DE0].
@@ -2964,34 +2993,14 @@ Proof.
         pose proof (DA0 w t). destruct (mem t toks); lia.
   - (* the balances cover what can still be claimed *)
     rewrite Hcw'. intros t Ht.
-    rewrite (pay_out_effect _ _ _ Hpay t), tok_sum_unlocked by exact Ht. rewrite tok_sum_flat.
-    rewrite <- (wsum_pay_entries det t (cw - MAXW) window_len HWnd).
-    2:{ intros w Hin. rewrite window_len_Z. destruct (HWin w Hin) as (Hwin & _). lia. }
-    fold (x) . 
-    assert (Hpot : forall w, cw - MAXW <= w < cw - MAXW + Z.of_nat window_len ->
-                    pot f' g' t w = pot f1 g t w + (- x w t)).
-    { intros w Hwr. rewrite window_len_Z in Hwr. unfold pot. rewrite Hpaid', HRt1.
-      destruct (Xb w t) as (Hx0 & _).
-      destruct (Z.eq_dec w cw) as [->|Hne].
-      - destruct Hcwk as (_ & Ha). unfold gA. rewrite Ha, Hcwk2.
-        destruct (Hxy0 cw (Hfut cw ltac:(lia))) as (Hxz & _). rewrite Hxz. lia.
-      - assert (Hle : 0 < x w t -> paid g w t + x w t <= gR f' w t).
-        { intros Hx. destruct (HPR w t Hx) as (Hle & _). rewrite Hpaid' in Hle. exact Hle. }
-        unfold gA. pose proof (Dpaid0 w t) as Hp0.
-        destruct (Hweeks w Hne) as [(_ & Hr & Ha)|[(Hcl & _)|(_ & Hr0 & Hwin & Hr & Ha)]].
-        + rewrite Ha. unfold gR in *. rewrite Hr in *. destruct (Z.eq_dec (x w t) 0) as [Hz|Hz]; [rewrite Hz; lia|].
-          specialize (Hle ltac:(lia)). lia.
-        + unfold cleared_week in Hcl. lia.
-        + rewrite Ha. unfold gR in *. rewrite Hr, Hr0 in *. simpl.
-          rewrite (tok_sum_positive_part (fun t0 => view_accumulated f1 w t0) toks t Hnd (fun t0 => DA0 w t0)) in *.
-          assert (Hpz : paid g w t = 0) by (apply DP0; [lia | left; exact Hr0]). rewrite Hpz in *.
-          pose proof (DA0 w t). destruct (Z.eq_dec (x w t) 0) as [Hz|Hz].
-          * rewrite Hz. destruct (mem t toks); lia.
-          * specialize (Hle ltac:(lia)). destruct (mem t toks); lia. }
-    erewrite wsum_ext; [|exact Hpot]. rewrite wsum_add.
-    assert (Hneg : wsum (fun w => - x w t) (cw - MAXW) window_len = - wsum (fun w => sum3 (pay_entries det) w t) (cw - MAXW) window_len).
-    { clear. unfold x. generalize (cw - MAXW). induction window_len as [|n IH]; intros a; [reflexivity|]. rewrite !wsum_S, IH. lia. }
-    rewrite Hneg. pose proof (DSI t Ht) as Hs. rewrite Hb1 in Hs. lia.
+    rewrite (pay_out_effect _ _ _ Hpay t), tok_sum_unlocked by exact Ht. rewrite tok_sum_flat, <- Hxsum.
+    erewrite wsum_ext; [|exact (Hpot t)]. rewrite wsum_add, Hneg.
+    pose proof (DSI t Ht) as Hs. rewrite Hb1 in Hs. lia. }
+  (* the bound on the payments *)
+  intros t Ht. rewrite tok_sum_unlocked by exact Ht. rewrite tok_sum_flat, <- Hxsum.
+  assert (H0 : 0 <= wsum (pot f' g' t) (cw - MAXW) window_len).
+  { apply wsum_nonneg. intros w _. unfold pot. pose proof (Hnn' w t). unfold gA. lia. }
+  erewrite wsum_ext in H0; [|exact (Hpot t)]. rewrite wsum_add, Hneg in H0. lia.
 Qed.
 
 (** ------------------------------------------------------------------ every operation preserves both invariants *)
@@ -3105,11 +3114,11 @@ Proof.
       assert (H2 : cur_week (accumulate_additional f (cur_week f)) = cur_week f) by (unfold cur_week at 1; rewrite e1, e2; reflexivity).
       assert (H3 : fc_per_block (accumulate_additional f (cur_week f)) = fc_per_block f).
       { unfold accumulate_additional. destruct (fc_lock_week f =? cur_week f); reflexivity. }
-      exact (touch_preserves f (accumulate_additional f (cur_week f)) f' (claim_user c orig) det
-               (mkG (g_paid g) (g_used g) (g_cred g ++ extra_credit f)) Hi Hi' D1 H1 e4 H2 H3 Hts).
+      exact (proj1 (touch_preserves f (accumulate_additional f (cur_week f)) f' (claim_user c orig) det
+               (mkG (g_paid g) (g_used g) (g_cred g ++ extra_credit f)) Hi Hi' D1 H1 e4 H2 H3 Hts)).
     + (* UpdateEnergy *)
       destruct (update_summary _ _ _ _ _ _ Hi (d_A0 _ _ D) Es) as (Hts & ->).
-      pose proof (touch_preserves f f f' u [] g Hi Hi' D eq_refl eq_refl eq_refl eq_refl Hts) as D'.
+      pose proof (proj1 (touch_preserves f f f' u [] g Hi Hi' D eq_refl eq_refl eq_refl eq_refl Hts)) as D'.
       simpl in D'. rewrite app_nil_r in D'.
       assert (Hu : used_entries (view_progress f u) [] = []) by (destruct (view_progress f u); reflexivity).
       rewrite Hu, app_nil_r in D'. destruct g; exact D'.
@@ -3151,4 +3160,196 @@ Lemma balance_covers epoch ops t : t <> LOCKED ->
 Proof.
   intros Ht g f. destruct (grun_inv ops _ _ (init_finv epoch) (init_dinv epoch)) as (Hi & D). fold f g in Hi, D.
   split; [apply (d_SI _ _ D); exact Ht | intros w; apply pot_nonneg; exact D].
+Qed.
+
+(** ------------------------------------------------------------------ a permitted claim never aborts *)
+Lemma pay_out_total' ps : forall bal, Forall (fun p : Z * Z => 0 <= snd p) ps ->
+  (forall t, In t (map fst ps) -> tok_sum ps t <= aget bal t) -> exists bal', pay_out bal ps = Ok bal'.
+Proof.
+  induction ps as [|[t0 a] tl IH]; intros bal Hnn Hle; simpl; [eexists; reflexivity|].
+  inversion Hnn as [|? ? Ha Htl]; subst. simpl in Ha.
+  pose proof (Hle t0 (or_introl eq_refl)) as H0. simpl in H0. rewrite Z.eqb_refl in H0.
+  pose proof (tok_sum_nonneg tl t0 Htl).
+  rewrite sub_chk_ge by lia. simpl bind. apply IH; [exact Htl|].
+  intros t Hin. rewrite aget_aset_pt. specialize (Hle t (or_intror Hin)). simpl in Hle.
+  destruct (t0 =? t) eqn:E; [apply Z.eqb_eq in E; subst|]; lia.
+Qed.
+
+Lemma fc_hook_total h s w e E : exists h' s' r, fc_hook h s w e E = Ok (h', s', r).
+Proof.
+  unfold fc_hook, default_user_rewards. destruct ((e =? 0) || (E =? 0)); [eauto|].
+  destruct (collect_and_get fhost fc_collect h s w) as [[h1 s1] tot]. eauto.
+Qed.
+
+Lemma claim_weeks_total n : forall h s p, exists h' s' p' det, claim_weeks fhost fc_hook n h s p = Ok (h', s', p', det).
+Proof.
+  induction n as [|n IH]; intros h s p; simpl claim_weeks; [eauto|].
+  unfold claim_single. destruct (fc_hook_total h s (pr_week p) (en_amount (pr_en p)) (aget (w_energy s) (pr_week p))) as (h1 & s1 & r & Hh).
+  rewrite Hh. simpl bind. destruct (IH h1 s1 (advance_week p)) as (h2 & s2 & p2 & d2 & Hr). rewrite Hr. simpl bind. eauto.
+Qed.
+
+Lemma claim_multi_total f h user : FInv f ->
+  exists h' s' det, claim_multi fhost fc_hook h (fc_w f) user (cur_week f) (energy_entry f user) = Ok (h', s', det).
+Proof.
+  intros (Hwf & Hinv & Hle). destruct Hwf as (cw & Hcw & Hprog & Hfac & _).
+  pose proof (current_week_cur _ _ Hcw) as Hcur. subst cw.
+  assert (Hpos : 1 <= cur_week f) by (apply (week_for_epoch_pos _ _ _ Hcw)).
+  destruct (update_user_energy_spec (fc_w f) (cur_week f) user (energy_entry f user) Hinv Hle Hpos (energy_entry_tok f user Hfac))
+    as (s1 & Hu & _).
+  unfold claim_multi. rewrite Hu. simpl bind.
+  assert (Hck : (pr_week (match pfind (w_prog (fc_w f)) user with Some p => p | None => mkProg (energy_entry f user) (cur_week f) end) <=? cur_week f) = true).
+  { apply Z.leb_le. destruct (pfind (w_prog (fc_w f)) user) as [p|] eqn:Ep; [|simpl; lia].
+    apply pfind_in in Ep. rewrite Forall_forall in Hprog. apply (Hprog _ Ep). }
+  rewrite Hck.
+  match goal with |- context [claim_weeks fhost fc_hook ?n ?hh ?ss ?pp] =>
+    destruct (claim_weeks_total n hh ss pp) as (h2 & s2 & p2 & d2 & Hc) end.
+  rewrite Hc. simpl bind. eauto.
+Qed.
+
+(** add a list of payments to balances *)
+Fixpoint credit_all (bal : list (Z * Z)) (ps : list (Z * Z)) : list (Z * Z) :=
+  match ps with [] => bal | (t, a) :: tl => credit_all (aset bal t (aget bal t + a)) tl end.
+
+Lemma credit_all_get ps : forall bal t, aget (credit_all bal ps) t = aget bal t + tok_sum ps t.
+Proof.
+  induction ps as [|[t0 a] tl IH]; intros bal t; simpl; [lia|].
+  rewrite IH, aget_aset_pt. destruct (t0 =? t) eqn:E; [apply Z.eqb_eq in E; subst|]; lia.
+Qed.
+
+Lemma FInv_with_bal f b : FInv f -> FInv (with_bal f b).
+Proof. intros (H1 & H2 & H3). split; [|split]; assumption. Qed.
+
+Lemma accumulate_with_bal f b cw : accumulate_additional (with_bal f b) cw = with_bal (accumulate_additional f cw) b.
+Proof. unfold accumulate_additional; simpl. destruct (fc_lock_week f =? cw); reflexivity. Qed.
+
+Lemma shares_pos tot e E : Forall (fun p : Z * Z => 0 <= snd p) (shares tot e E).
+Proof.
+  induction tot as [|[t a] tl IH]; simpl; [constructor|].
+  destruct (0 <? a * e / E) eqn:Ep; [constructor; [apply Z.ltb_lt in Ep; simpl; lia | exact IH] | exact IH].
+Qed.
+
+Lemma fc_claim_weeks_nonneg n : forall h s p h' s' p' det,
+  claim_weeks fhost fc_hook n h s p = Ok (h', s', p', det) ->
+  Forall (fun p : Z * Z => 0 <= snd p) (flat_rewards det).
+Proof.
+  induction n as [|n IH]; intros h s p h' s' p' det; simpl claim_weeks.
+  - intros Heq; inversion Heq; subst. constructor.
+  - intros Heq. apply bind_ok in Heq. destruct Heq as ([[[h1 s1] p1] r0] & Hs & Heq).
+    apply bind_ok in Heq. destruct Heq as ([[[h2 s2] p2] rs] & Hr & Heq). inversion Heq; subst; clear Heq.
+    unfold claim_single in Hs. apply bind_ok in Hs. destruct Hs as ([[hx sx] rx] & Hh & Hs). inversion Hs; subst; clear Hs.
+    unfold flat_rewards. simpl. apply Forall_app. split; [|apply (IH _ _ _ _ _ _ _ Hr)].
+    unfold fc_hook, default_user_rewards in Hh. destruct ((_ =? 0) || (_ =? 0)); [inversion Hh; constructor|].
+    destruct (collect_and_get fhost fc_collect h s (pr_week p)) as [[h3 s3] tot]. inversion Hh; subst. apply shares_pos.
+Qed.
+
+Lemma unlocked_part_nonneg l : Forall (fun p : Z * Z => 0 <= snd p) l -> Forall (fun p : Z * Z => 0 <= snd p) (unlocked_part l).
+Proof.
+  unfold unlocked_part. intros Hall. apply Forall_forall. intros p Hin. apply filter_In in Hin. destruct Hin as (Hin & _).
+  rewrite Forall_forall in Hall. apply (Hall _ Hin).
+Qed.
+
+Lemma unlocked_part_no_locked l t : In t (map fst (unlocked_part l)) -> t <> LOCKED.
+Proof.
+  unfold unlocked_part. intros Hin. apply in_map_iff in Hin. destruct Hin as ([t0 a] & Ht & Hin). simpl in Ht. subst t0.
+  apply filter_In in Hin. destruct Hin as (_ & Hn). simpl in Hn. intros ->. rewrite Z.eqb_refl in Hn. discriminate.
+Qed.
+
+Lemma FInv_accumulate f : FInv f -> FInv (accumulate_additional f (cur_week f)).
+Proof.
+  intros (H1 & H2 & H3). destruct (accumulate_additional_env f (cur_week f)) as (e1 & e2 & e3 & _ & e5).
+  pose proof (accumulate_additional_w f (cur_week f)) as ew.
+  split; [|split].
+  - eapply FWf_frame; [exact e2 | exact e1 | rewrite ew; reflexivity | exact e3 | exact e5 | exact H1].
+  - rewrite ew. exact H2.
+  - rewrite ew.
+    assert (Hc : cur_week (accumulate_additional f (cur_week f)) = cur_week f) by (unfold cur_week at 1; rewrite e1, e2; reflexivity).
+    rewrite Hc. exact H3.
+Qed.
+
+Lemma DInv_with_bal f g b : (forall t, t <> LOCKED -> aget (fc_bal f) t <= aget b t) -> DInv f g -> DInv (with_bal f b) g.
+Proof.
+  intros Hb D. constructor; try apply D.
+  intros t Ht. simpl fc_bal. eapply Z.le_trans; [|apply (Hb t Ht)].
+  erewrite wsum_ext; [apply (d_SI _ _ D t Ht)|]. intros; reflexivity.
+Qed.
+
+(** on every reachable state [claim_rewards] succeeds for every receiver and user: the global update never
+    underflows and the balances always cover the payments *)
+Lemma claim_rewards_never_aborts f g dest user : FInv f -> DInv f g ->
+  exists f' outs det, claim_rewards f dest user = Ok (f', outs, det).
+Proof.
+  intros Hi D. pose proof Hi as (Hwf & _). destruct Hwf as (cw & Hcw & _).
+  pose proof (current_week_cur _ _ Hcw) as Hcur. subst cw.
+  set (f1 := accumulate_additional f (cur_week f)).
+  destruct (claim_multi_total f (fc_h f1) user Hi) as (h2 & w2 & det & Hcm).
+  set (plain := unlocked_part (flat_rewards det)).
+  assert (Hnnp : Forall (fun p : Z * Z => 0 <= snd p) plain).
+  { apply unlocked_part_nonneg. unfold claim_multi in Hcm. apply bind_ok in Hcm. destruct Hcm as (s1 & _ & Hcm).
+    destruct (pr_week _ <=? cur_week f); [|discriminate].
+    apply bind_ok in Hcm. destruct Hcm as ([[[h3 s3] p3] d3] & Hcw3 & Hcm). inversion Hcm; subst.
+    apply (fc_claim_weeks_nonneg _ _ _ _ _ _ _ _ Hcw3). }
+  assert (Hbal0 : forall t, t <> LOCKED -> 0 <= aget (fc_bal f) t).
+  { intros t Ht. eapply Z.le_trans; [|apply (d_SI _ _ D t Ht)]. apply wsum_nonneg. intros w _. apply pot_nonneg. exact D. }
+  (* the same claim on a copy of the state with enough balance to pay certainly succeeds ... *)
+  set (bo := credit_all (fc_bal f) plain). set (fo := with_bal f bo).
+  assert (Hstep : forall (ff : fc) bb, ff = with_bal f bb ->
+            (exists bal', pay_out bb plain = Ok bal') ->
+            exists f' outs, claim_rewards ff dest user = Ok (f', outs, det)).
+  { intros ff bb -> (bal' & Hp). unfold claim_rewards.
+    assert (Hcwb : current_week (with_bal f bb) = Ok (cur_week f)) by exact Hcw. rewrite Hcwb. simpl bind.
+    rewrite accumulate_with_bal. fold f1.
+    assert (He : energy_entry (with_bal f1 bb) user = energy_entry f user).
+    { unfold energy_entry; simpl. unfold f1. destruct (accumulate_additional_env f (cur_week f)) as (-> & _ & -> & _). reflexivity. }
+    rewrite He. simpl fc_h. simpl fc_w. unfold f1 at 2. rewrite accumulate_additional_w. rewrite Hcm. simpl bind.
+    simpl fc_bal. fold plain. rewrite Hp. simpl bind. eauto. }
+  assert (Hpo : exists bal', pay_out bo plain = Ok bal').
+  { apply pay_out_total'; [exact Hnnp|]. intros t Hin. unfold bo. rewrite credit_all_get.
+    specialize (Hbal0 t (unlocked_part_no_locked _ _ Hin)). lia. }
+  destruct (Hstep fo bo eq_refl Hpo) as (fo' & outs_o & Hco).
+  (* ... and the ledger invariant bounds what it pays by what the window held, which the real balance covers *)
+  assert (Hio : FInv fo) by (apply FInv_with_bal; exact Hi).
+  assert (Dob : DInv fo g).
+  { apply DInv_with_bal; [|exact D]. intros t Ht. unfold bo. rewrite credit_all_get. pose proof (tok_sum_nonneg plain t Hnnp). lia. }
+  pose proof (DInv_accumulate fo g Hio Dob) as D1o.
+  pose proof (claim_summary _ _ _ _ _ _ Hio (d_A0 _ _ Dob) (d_pb _ _ Dob) Hco) as Hts.
+  assert (Hio' : FInv fo').
+  { assert (Hso : step fo (Claim dest (Some user) true) = Ok (fo', outs_o, det) \/ True) by (right; exact I).
+    (* directly from the weekly invariant of a claim *)
+    destruct (claim_rewards_w _ _ _ _ _ _ Hco) as (cw & h2' & Hcw2 & Hcm2).
+    destruct (claim_rewards_env _ _ _ _ _ _ Hco) as (e1 & e2 & _).
+    pose proof (current_week_cur _ _ Hcw2) as Hc2. destruct Hio as (Hwfo & Hinvo & Hleo).
+    assert (Hpos : 1 <= cw) by (apply (week_for_epoch_pos _ _ _ Hcw2)).
+    pose proof Hwfo as (cw0 & _ & _ & Hfac & _).
+    assert (Hle2 : w_last (fc_w fo) <= cw) by lia.
+    destruct (claim_multi_inv fhost fc_hook fc_hook_frame _ _ _ _ _ _ _ _ Hinvo Hle2 Hpos (energy_entry_tok fo _ Hfac) Hcm2) as (Hinv' & Hlast).
+    split; [eapply claim_rewards_wf; eassumption|]. split; [exact Hinv'|]. unfold cur_week. rewrite e1, e2. fold (cur_week fo). lia. }
+  destruct (accumulate_additional_env fo (cur_week fo)) as (e1 & e2 & _ & e4 & _).
+  assert (H1 : fc_w (accumulate_additional fo (cur_week fo)) = fc_w fo) by apply accumulate_additional_w.
+  assert (H2 : cur_week (accumulate_additional fo (cur_week fo)) = cur_week fo) by (unfold cur_week at 1; rewrite e1, e2; reflexivity).
+  assert (H3 : fc_per_block (accumulate_additional fo (cur_week fo)) = fc_per_block fo).
+  { unfold accumulate_additional. destruct (fc_lock_week fo =? cur_week fo); reflexivity. }
+  destruct (touch_preserves fo (accumulate_additional fo (cur_week fo)) fo' user det
+              (mkG (g_paid g) (g_used g) (g_cred g ++ extra_credit fo)) Hio Hio' D1o H1 e4 H2 H3 Hts) as (_ & Hbound).
+  (* the potential does not depend on the balances *)
+  pose proof (DInv_accumulate f g Hi D) as D1.
+  assert (Hreal : exists f' outs, claim_rewards f dest user = Ok (f', outs, det)); [|destruct Hreal as (f' & o & Hr); eauto].
+  apply (Hstep f (fc_bal f)); [destruct f; reflexivity|].
+  apply pay_out_total'; [exact Hnnp|]. intros t Hin.
+  pose proof (unlocked_part_no_locked _ _ Hin) as Ht.
+  eapply Z.le_trans; [apply (Hbound t Ht)|].
+  destruct (accumulate_additional_env f (cur_week f)) as (_ & _ & _ & eb & _).
+  rewrite <- eb. eapply Z.le_trans; [|apply (d_SI _ _ D1 t Ht)].
+  assert (Hc1 : cur_week (accumulate_additional f (cur_week f)) = cur_week f).
+  { destruct (accumulate_additional_env f (cur_week f)) as (x1 & x2 & _). unfold cur_week at 1. rewrite x1, x2. reflexivity. }
+  rewrite Hc1. change (cur_week fo) with (cur_week f).
+  apply Z.eq_le_incl. apply wsum_ext. intros w _. unfold pot, gA, gR, paid. unfold fo. rewrite accumulate_with_bal. reflexivity.
+Qed.
+
+Lemma ep_claim_never_aborts f g c (orig : option Z) (boosted : bool) : FInv f -> DInv f g ->
+  fc_paused f = false ->
+  (match orig with Some u => (if boosted then mem u (fc_allow f) else mem c (fc_wl f)) = true | None => True end) ->
+  exists f' outs det, ep_claim f c orig boosted = Ok (f', outs, det).
+Proof.
+  intros Hi D Hp Hperm. unfold ep_claim. rewrite Hp. simpl.
+  destruct boosted; destruct orig as [u|]; try rewrite Hperm; eapply claim_rewards_never_aborts; eassumption.
 Qed.
